@@ -50,6 +50,7 @@ def run(prog, tier):
     from . import c04
     from ._families import borrow
     borrow(R, P, "BUILDER", prog, c04.check_builder_paths, builder_table(prog), floor=14)
+    borrow(R, P, "BUILDER", prog, c04.check_parity, floor=1)
     return R
 
 
